@@ -5,6 +5,7 @@
 import Driver.Pure
 import Driver.Dna
 import Driver.DynArr
+import Driver.StoreDrv
 
 open Jesse
 
@@ -16,6 +17,8 @@ def step (s : DState) (line : String) : DState × String :=
   match toks with
   | "call" :: fn :: args => (s, Driver.Pure.call fn args)
   | "dna" :: args => (s, Driver.Dna.handle args)
+  | "fa" :: args => (s, Driver.StoreDrv.handleFa args)
+  | "st" :: args => (s, Driver.StoreDrv.handleSt args)
   | "da" :: args => let (d, o) := Driver.DynArr.handle s.da args; ({ s with da := d }, o)
   | [] => (s, "")
   | _ => (s, "bad-op")
